@@ -294,6 +294,7 @@ func run(r *vk.Run) {
 	forcedPublish(r)
 	stress(r)
 	counters(r)
+	ownEffects(r)
 	r.Require("forced-windows-reached", 50)
 	r.Require("forced-publish-windows-reached", 8)
 	r.Require("stress-histories", 100)
@@ -949,6 +950,106 @@ func stress(r *vk.Run) {
 			r.Sample("stress-history", renderHistory(g.rec.ops))
 		}
 	}
+}
+
+// ---------------------------------------------------------------------------------------------------------
+// every successful call takes effect exactly once, as ITS OWN call
+
+// ownEffects: several goroutines Add / Update items on two collections at once, every call with its own id callback
+// (generated ids) and its own after-interceptor stamp. A successful call's callback runs exactly once, with an id
+// under which Get returns that call's value and stamp, and the call returns its own value and stamp: no call takes
+// effect as another one.
+func ownEffects(r *vk.Run) {
+	rounds := r.Pick(24, 2400)
+	for round := 0; round < rounds; round++ {
+		if !r.Mine(round) {
+			continue
+		}
+		cols := []*resource.Collection{resource.NewCollection(), resource.NewCollection()}
+		type rec struct {
+			col         int
+			tag         string
+			stamp       int64
+			ids         []string
+			ret         *tat
+			err         error
+			viaUpdate   bool
+			explicitID  string
+			afterCalled int
+		}
+		var mu sync.Mutex
+		var recs []*rec
+		var wg sync.WaitGroup
+		for g := 0; g < 8; g++ {
+			g := g
+			wg.Add(1)
+			go func() {
+				defer wg.Done()
+				for k := 0; k < 40; k++ {
+					rc := &rec{col: (g + k) % 2, tag: fmt.Sprintf("r%dg%dk%d", round, g, k), stamp: int64(round)*1000000 + int64(g)*1000 + int64(k) + 1, viaUpdate: k%5 == 4}
+					opts := []resource.WriteOption{
+						resource.InterceptAfter(func(_, new proto.Message) {
+							rc.afterCalled++
+							new.(*tat).DefaultInt64 = rc.stamp
+						}),
+					}
+					id := ""
+					if k%3 == 0 {
+						id = rc.tag // an explicit id of its own
+						rc.explicitID = id
+					} else {
+						opts = append(opts, resource.WithGenIDIfAbsent(), resource.WithIDCallback(func(id string) { rc.ids = append(rc.ids, id) }))
+					}
+					var res proto.Message
+					if rc.viaUpdate {
+						res, rc.err = cols[rc.col].Update(id, &tat{DefaultString: rc.tag}, append(opts, resource.WithCreateIfAbsent())...)
+					} else {
+						res, rc.err = cols[rc.col].Add(id, &tat{DefaultString: rc.tag}, opts...)
+					}
+					rc.ret, _ = res.(*tat)
+					mu.Lock()
+					recs = append(recs, rc)
+					mu.Unlock()
+				}
+			}()
+		}
+		wg.Wait()
+		r.Eval(len(recs))
+		r.Count("own-effect-calls", len(recs))
+		r.Distinct(fmt.Sprintf("owneffects|%d", round%8))
+		for _, rc := range recs {
+			what := "Add"
+			if rc.viaUpdate {
+				what = "Update+create"
+			}
+			bad := ""
+			id := rc.explicitID
+			switch {
+			case rc.err != nil:
+				continue // Aborted etc.: a call that failed is not judged here
+			case rc.explicitID == "" && len(rc.ids) != 1:
+				bad = fmt.Sprintf("its id callback ran %d times (%v), want once", len(rc.ids), rc.ids)
+			case rc.afterCalled != 1:
+				bad = fmt.Sprintf("its after-interceptor ran %d times, want once", rc.afterCalled)
+			case rc.ret == nil || rc.ret.DefaultString != rc.tag || rc.ret.DefaultInt64 != rc.stamp:
+				bad = fmt.Sprintf("it returned %s, want its own value %q with its own stamp %d", vk.JSON(rc.ret), rc.tag, rc.stamp)
+			}
+			if bad == "" {
+				if id == "" {
+					id = rc.ids[0]
+				}
+				got, ok := cols[rc.col].Get(id)
+				if gt, _ := got.(*tat); !ok || gt == nil || gt.DefaultString != rc.tag || gt.DefaultInt64 != rc.stamp {
+					bad = fmt.Sprintf("Get(%q) returns %s, want its own value %q with its own stamp %d", id, vk.JSON(got), rc.tag, rc.stamp)
+				}
+			}
+			if bad != "" {
+				r.Violation("C02/own-effect/"+what, fmt.Sprintf("8 goroutines creating items on two collections, each call with its own id callback / after-interceptor: a successful %s of %q: %s", what, rc.tag, bad), map[string]any{"round": round})
+				break
+			}
+		}
+	}
+	r.Require("own-effect-calls", 500)
 }
 
 // ---------------------------------------------------------------------------------------------------------
